@@ -16,13 +16,16 @@
                      name contains a comma)
      date  [p, z, wd]  present?, zone, with day-of-week?
      mid, irt        "none" | "plain" | "folded" (value on a continuation line)
-     body  [s, pc, pe, hc, he, pf]   structure, charset/CTE of the plain and of the HTML part,
+     body  [s, pc, pe, hc, he, pf, x]   structure, (x: further plain-text body candidates, see PlainCands) charset/CTE of the plain and of the HTML part,
                      pf: the plain text contains a line starting with "From "
-     att1, att2  [p, fn, ns, nx, known, pl, cte]  present?, file-name FORM (none / ascii / RFC 2231 /
+     att1, att2  [p, fn, ns, nx, mt, pl, cte, disp, cid, desc, xid, loc]  present?, file-name FORM (none / ascii / RFC 2231 /
                      RFC 2047), name SHAPE ns (plain, with "/", with "\", drive prefix, leading dot,
                      "..", surrounding blanks, specials ; " %), name EXTENSION nx (the payload's own,
-                     none, misleading), MIME type known to the library's table?, payload kind (every
-                     supported document type with a MIME type, + arbitrary bytes), transfer encoding
+                     none, misleading), declared MIME type mt (official / alias / cross / octet-stream / plausible /
+                     invented), payload kind (every supported document type with a MIME type, zip and
+                     tar.gz archives holding documents, arbitrary bytes), transfer encoding, optional part
+                     headers (disposition attachment / inline / absent, Content-ID, Content-Description,
+                     X-Attachment-Id, Content-Location)
      nest            two attachments: the first sits in an inner multipart/mixed with the body
      ser             serialisation (hand-assembled headers LF/CRLF, stdlib policies)
    The concretiser (mbv/c16_mailgen.py) turns m into bytes with the standard library only.
@@ -78,7 +81,8 @@
                          that name, so a supported non-plain-text document is extracted as plain
                          text (or not at all).
      "WalkNoAttachmentSkip"  sensitivity only: body selection that does not skip attachment
-                         parts.                                                            *)
+                         parts.
+     "WalkLastPlainWins"     sensitivity only: every later text/plain candidate replaces the body.                                                            *)
 EXTENDS Naturals, Sequences, FiniteSets, TLC
 
 CONSTANT Deviations
@@ -94,7 +98,11 @@ FnKinds   == {"none", "ascii", "rfc2231", "rfc2047"}
 NameShapes == {"plain", "slash", "bslash", "drive", "dot", "updir", "blank", "special"}
 NameExts  == {"ext", "noext", "wrongext"}
 DocPayloads == {"txt", "html", "csv", "docx", "pptx", "xlsx", "odt", "ods", "odp", "odg", "pdf", "rtf", "epub"}
-Payloads  == DocPayloads \cup {"bin"}
+ArchPayloads == {"zip", "tgz"}               \* archives holding documents (bundle.zip, logs.tar.gz)
+SuppPayloads == DocPayloads \cup ArchPayloads
+Payloads  == SuppPayloads \cup {"bin"}
+MtKinds   == {"official", "alias", "cross", "octet", "plausible", "invented"}
+Disps     == {"attachment", "inline", "absent"}
 AttCTEs   == {"base64", "qp"}
 Sers      == {"hand", "handcrlf", "smtp", "smtputf8", "compat32"}
 
@@ -110,6 +118,36 @@ Atts(m) == (IF m.att1.p THEN <<m.att1>> ELSE <<>>) \o (IF m.att2.p THEN <<m.att2
 
 \* payloads whose extractor is the plain-text one (routing by an invented ".txt" name is harmless)
 PlainTextRouted(pl) == pl \in {"txt", "csv"}
+
+(* ---- declared MIME type of an attachment: a.mt, drawn from the types in common use ----
+   "official"  the registered type of the payload        "alias"  a legacy alias the library's table
+   also maps to the payload's reader (application/csv, text/rtf, application/xhtml+xml,
+   application/x-zip-compressed, application/x-gzip)      "cross"  a type the table maps to ANOTHER
+   reader (csv or html sent as text/plain, docx as application/msword, xlsx as
+   application/vnd.ms-excel, pptx as application/vnd.ms-powerpoint)
+   "octet" application/octet-stream, "plausible" a type in use that the table does not hold,
+   "invented" a made-up type.  Known = the table AT THE PINNED COMMIT maps the type (transcribed
+   from parsing/mime_types.py:MIME_TYPE_MAPPING).                                              *)
+HasAlias(pl) == pl \in {"csv", "rtf", "html", "zip", "tgz"}
+HasCross(pl) == pl \in {"csv", "html", "docx", "xlsx", "pptx"}
+CrossTarget(pl) == CASE pl \in {"csv", "html"} -> "txt" [] pl = "docx" -> "doc"
+                     [] pl = "xlsx" -> "xls" [] pl = "pptx" -> "ppt" [] OTHER -> "none"
+Known(a)  == a.mt \in {"official", "alias", "cross"}
+ValidMt(a) == /\ (a.mt = "official" => a.pl # "bin")
+              /\ (a.mt = "alias" => HasAlias(a.pl)) /\ (a.mt = "cross" => HasCross(a.pl))
+\* the Content-Type a body walk sees on the attachment part
+AttCt(a) == CASE a.pl = "txt" /\ a.mt = "official" -> "text/plain"
+              [] a.mt = "cross" /\ CrossTarget(a.pl) = "txt" -> "text/plain"
+              [] a.pl = "html" /\ a.mt = "official" -> "text/html"
+              [] OTHER -> "other"
+\* optional part headers (a.disp, a.cid, a.desc, a.xid, a.loc: Content-Disposition attachment / inline /
+\* absent (name only as Content-Type name=), Content-ID, Content-Description, X-Attachment-Id,
+\* Content-Location): NOTHING below depends on them -- the attachment list must not.  A part without a
+\* file name is an attachment only by "Content-Disposition: attachment"; a text/plain or text/html
+\* part that is not "attachment" is a body candidate for every mail reader: both excluded.
+ValidAtt(a) == /\ ValidMt(a)
+               /\ (a.fn = "none" => a.disp = "attachment")
+               /\ (a.disp # "attachment" => AttCt(a) = "other")
 
 (* ---------------- expected observation ---------------- *)
 SubjWords(k) == IF k = "none" THEN <<>> ELSE << <<"w", k, 1>>, <<"w", k, 2>>, <<"w", k, 3>> >>
@@ -127,18 +165,42 @@ ExpId(tag, v) == IF v = "none" THEN Absent ELSE <<tag, "id", 0>>
 PfN(m) == IF m.body.pf THEN 1 ELSE 0
 ExpPlain(m) == IF HasPlain(m.body.s) THEN <<"plain", m.body.pc, PfN(m)>> ELSE Absent
 ExpHtml(m)  == IF HasHtml(m.body.s)  THEN <<"html", m.body.hc, 0>> ELSE Absent
-\* units / full text (every structure of the universe has a plain or an HTML body)
-ExpUnitType(m) == IF HasPlain(m.body.s) THEN "plain" ELSE "html"
-ExpFull(m)     == IF HasPlain(m.body.s) THEN ExpPlain(m) ELSE ExpHtml(m)
 
-KnownN(a) == IF a.known THEN 1 ELSE 0
+(* ---- several plain-text body candidates (m.body.x) ----
+   "alt2"   a second text/plain inside the multipart/alternative (e.g. format=flowed variant)
+   "footer" an unnamed inline text/plain part after the body in multipart/mixed (list footer, disclaimer)
+   "fwd"    a forwarded message/rfc822 (no disposition) whose own body is text/plain;  "both" = footer, fwd
+   PlainCands(m) = the non-attachment text/plain leaves in walk() order.  MUST: body_plain starts with
+   the FIRST candidate and contains nothing but candidates, in order.  DC11: whether the later
+   candidates are appended -- mbox_email_extractor documents "first text/plain", eml_email_extractor
+   joins every text/plain part mail-parser reports; both are what a mail reader may show.            *)
+Extras == {"none", "alt2", "footer", "fwd", "both"}
+XTok(k) == <<"xplain", k, 0>>
+PlainCands(m) ==
+    (IF HasPlain(m.body.s) THEN <<ExpPlain(m)>> ELSE <<>>)
+    \o (IF m.body.x = "alt2" THEN <<XTok("alt2")>> ELSE <<>>)
+    \o (IF m.body.x \in {"footer", "both"} THEN <<XTok("footer")>> ELSE <<>>)
+    \o (IF m.body.x \in {"fwd", "both"} THEN <<XTok("fwd")>> ELSE <<>>)
+FirstPlain(m) == IF PlainCands(m) = <<>> THEN <<>> ELSE <<PlainCands(m)[1]>>
+ValidBody(b) == b.x = "alt2" => b.s \in {"alt", "altrel"}
+
+\* units / full text (every structure of the universe has a plain or an HTML body)
+ExpUnitType(m) == IF PlainCands(m) # <<>> THEN "plain" ELSE "html"
+ExpFull(m)     == IF PlainCands(m) # <<>> THEN FirstPlain(m) ELSE <<ExpHtml(m)>>
+
+MtN(t) == CASE t = "invented" -> 0 [] t = "official" -> 1 [] t = "alias" -> 2 [] t = "octet" -> 3
+            [] t = "cross" -> 1 [] t = "plausible" -> 5
+\* the token names the type STRING: a cross type is the official type of another payload kind
+ExpType(a) == CASE a.mt = "cross" -> <<"type", CrossTarget(a.pl), 1>>
+                [] a.mt = "octet" -> <<"type", "octet", 3>>
+                [] OTHER -> <<"type", a.pl, MtN(a.mt)>>
 ExpAtt(a, j) == [ name  |-> IF a.fn = "none" THEN Absent ELSE <<"fn", a.fn, j>>,
-                  type  |-> <<"type", a.pl, KnownN(a)>>,
+                  type  |-> ExpType(a),
                   bytes |-> <<"bytes", a.pl, j>>,
-                  sup   |-> a.known,
+                  sup   |-> Known(a),
                   \* the law of the last clause of C16: extracted through the e-mail result = extracted
-                  \* on its own (same result type, same full text), whatever the NAME looks like
-                  supp  |-> IF a.known THEN <<"ft", a.pl, j>> ELSE Absent ]
+                  \* on its own (same result types, same full texts), whatever the NAME looks like
+                  supp  |-> IF Known(a) THEN <<"ft", a.pl, j>> ELSE Absent ]
 ExpAtts(m) == [ j \in DOMAIN Atts(m) |-> ExpAtt(Atts(m)[j], j) ]
 
 Expected(m) ==
@@ -146,25 +208,33 @@ Expected(m) ==
       to |-> Mailboxes("to", m.to), cc |-> Mailboxes("cc", m.cc),
       bcc |-> Mailboxes("bcc", m.bcc), rt |-> Mailboxes("rt", m.rt),
       date |-> ExpDate(m), mid |-> ExpId("mid", m.mid), irt |-> ExpId("irt", m.irt),
-      plain |-> ExpPlain(m), html |-> ExpHtml(m), atts |-> ExpAtts(m),
+      plain |-> FirstPlain(m), html |-> ExpHtml(m), atts |-> ExpAtts(m),
       nunits |-> 1, utype |-> ExpUnitType(m), full |-> ExpFull(m), joinok |-> TRUE ]
 
 (* ---------------- acceptance = Expected modulo the DON'T-CAREs ---------------- *)
 NotInline(x) == x.bytes[1] # "inline"
 
-AcceptPlain(path, m, t) ==
-    \/ t = ExpPlain(m)
-    \/ /\ path = "mbox" /\ HasPlain(m.body.s) /\ m.body.pf                      \* DC4
-       /\ t = <<"plainesc", m.body.pc, 1>>
+\* DC4: on the mbox path the escaped spelling of the message's own plain body is the same text
+Unesc(path, m, t) == IF path = "mbox" /\ m.body.pf /\ t = <<"plainesc", m.body.pc, 1>>
+                     THEN <<"plain", m.body.pc, 1>> ELSE t
+AcceptPlainSeq(path, m, seq) ==
+    LET u == [ k \in DOMAIN seq |-> Unesc(path, m, seq[k]) ] IN
+    \/ u = FirstPlain(m)
+    \/ u = PlainCands(m)                                                        \* DC11
 
 \* what the as-built eml path does with a file-name-less attachment (KF-C16-01)
 InDomain_KF_C16_01(path, a) ==
-    path = "eml" /\ a.fn = "none" /\ a.known /\ ~PlainTextRouted(a.pl)
+    path = "eml" /\ a.fn = "none" /\ Known(a) /\ ~PlainTextRouted(a.pl)
+
+\* DC10: the NAME says something else than the payload is (misleading extension), or the declared
+\* type belongs to another reader and no proper extension overrides it
+Lenient(a) == \/ a.fn # "none" /\ a.nx = "wrongext"
+              \/ a.mt = "cross" /\ ~(a.fn # "none" /\ a.nx = "ext")
 
 AcceptSupp(path, a, e, o) ==
     \/ o.supp = e.supp
-    \/ ~a.known /\ o.supp = <<"ft", a.pl, e.bytes[3]>>                          \* DC7
-    \/ /\ a.known /\ a.fn # "none" /\ a.nx = "wrongext"                         \* DC10
+    \/ ~Known(a) /\ o.supp = <<"ft", a.pl, e.bytes[3]>>                         \* DC7
+    \/ /\ Known(a) /\ Lenient(a)                                                \* DC10
        /\ o.supp \in {Absent, <<"ftastxt", a.pl, e.bytes[3]>>}
     \/ /\ "InventedTxtName" \in Deviations /\ InDomain_KF_C16_01(path, a)
        /\ o.supp \in {Absent, <<"ftastxt", a.pl, e.bytes[3]>>}
@@ -185,12 +255,12 @@ Accept(path, m, o) ==
         /\ o.from = e.from
         /\ o.to = e.to /\ o.cc = e.cc /\ o.bcc = e.bcc /\ o.rt = e.rt
         /\ o.date = e.date /\ o.mid = e.mid /\ o.irt = e.irt
-        /\ AcceptPlain(path, m, o.plain)
+        /\ AcceptPlainSeq(path, m, o.plain)
         /\ o.html = e.html
         \* C03 clause for e-mail: one unit of the right body type; full text = that body = join of units
         /\ o.joinok
         /\ o.nunits = 1 /\ o.utype = e.utype
-        /\ IF HasPlain(m.body.s) THEN AcceptPlain(path, m, o.full) ELSE o.full = e.full
+        /\ IF PlainCands(m) # <<>> THEN o.full = o.plain ELSE o.full = e.full
         /\ (~HasInline(m.body.s) => Len(oa) = Len(o.atts))      \* "inline" only where there is one
         /\ Len(oa) = Len(e.atts)
         /\ \A j \in DOMAIN e.atts : AcceptAtt(path, Atts(m)[j], e.atts[j], oa[j])
@@ -213,17 +283,20 @@ Presence(p) ==
 
 (* ---------------- algorithmic part: body selection over the part sequence ---------------- *)
 \* Parts(m): leaves of the MIME tree in walk() order; [ct, att] content type token, attachment?
+Leaf(ct, id) == [ct |-> ct, att |-> FALSE, id |-> id]
 BodyParts(m) ==
     LET s == m.body.s IN
-    (IF HasPlain(s) THEN << [ct |-> "text/plain", att |-> FALSE, id |-> ExpPlain(m)] >> ELSE <<>>)
-    \o (IF HasHtml(s) THEN << [ct |-> "text/html", att |-> FALSE, id |-> ExpHtml(m)] >> ELSE <<>>)
-    \o (IF HasInline(s) THEN << [ct |-> "image/png", att |-> FALSE, id |-> <<"inline", "png", 0>>] >> ELSE <<>>)
+    (IF HasPlain(s) THEN << Leaf("text/plain", ExpPlain(m)) >> ELSE <<>>)
+    \o (IF m.body.x = "alt2" THEN << Leaf("text/plain", XTok("alt2")) >> ELSE <<>>)
+    \o (IF HasHtml(s) THEN << Leaf("text/html", ExpHtml(m)) >> ELSE <<>>)
+    \o (IF HasInline(s) THEN << Leaf("image/png", <<"inline", "png", 0>>) >> ELSE <<>>)
+    \o (IF m.body.x \in {"footer", "both"} THEN << Leaf("text/plain", XTok("footer")) >> ELSE <<>>)
+    \o (IF m.body.x \in {"fwd", "both"} THEN << Leaf("text/plain", XTok("fwd")) >> ELSE <<>>)
 
-AttCt(a) == CASE a.known /\ a.pl = "txt"  -> "text/plain"
-              [] a.known /\ a.pl = "html" -> "text/html"
-              [] OTHER -> "other"
+\* "attachment" in Content-Disposition is what get_body_content skips
 AttParts(m) == [ j \in DOMAIN Atts(m) |->
-                   [ct |-> AttCt(Atts(m)[j]), att |-> TRUE, id |-> <<"bytes", Atts(m)[j].pl, j>>] ]
+                   [ct |-> AttCt(Atts(m)[j]), att |-> Atts(m)[j].disp = "attachment",
+                    id |-> <<"bytes", Atts(m)[j].pl, j>>] ]
 Parts(m) == BodyParts(m) \o AttParts(m)
 
 \* get_body_content: first text/plain and first text/html that are not attachments
@@ -233,10 +306,12 @@ WalkFrom(ps, k, plain, html) ==
     ELSE LET p == ps[k]
              skip == p.att /\ "WalkNoAttachmentSkip" \notin Deviations IN
          IF skip THEN WalkFrom(ps, k + 1, plain, html)
-         ELSE IF p.ct = "text/plain" /\ plain = Absent THEN WalkFrom(ps, k + 1, p.id, html)
+         ELSE IF p.ct = "text/plain" /\ (plain = Absent \/ "WalkLastPlainWins" \in Deviations)
+              THEN WalkFrom(ps, k + 1, p.id, html)
          ELSE IF p.ct = "text/html" /\ html = Absent THEN WalkFrom(ps, k + 1, plain, p.id)
          ELSE WalkFrom(ps, k + 1, plain, html)
 Walk(m) == WalkFrom(Parts(m), 1, Absent, Absent)
 
-BodySelectionCorrect(m) == Walk(m) = [plain |-> ExpPlain(m), html |-> ExpHtml(m)]
+BodySelectionCorrect(m) ==
+    Walk(m) = [plain |-> IF PlainCands(m) = <<>> THEN Absent ELSE PlainCands(m)[1], html |-> ExpHtml(m)]
 =============================================================================
